@@ -888,3 +888,40 @@ Proof.
          (mkServo [115] (VInt 9) (PInt 544) (PInt 2400)), (mkServo [115] (VInt 10) (PInt 544) (PInt 2400)).
   repeat split; try reflexivity. cbn. discriminate.
 Qed.
+
+(* ================================================================== order of the sections *)
+(* every display object is defined exactly where it should be: after the #include line of the
+   header of its class and before setup(); its initialisation block comes after "void setup() {" *)
+Theorem object_defined_before_setup p pre d post :
+  d_setup p = pre ++ ILcd d :: post ->
+  let k := count_t (l_name d) (top_lcd_names pre) in
+  exists a b c e,
+    lib_sketch p = a ++ [lcd_obj_line d k] ++ b ++ [setup_start] ++ c ++ lcd_init_lines d k ++ e /\
+    (forall h, In h (headers_of (class_of d)) -> In (include_line h) a).
+Proof.
+  intros E k.
+  assert (Hin : In (d, k) (lcd_defs p)) by (eapply lcd_defs_at; exact E).
+  assert (Hg : In (lcd_obj_line d k) (lib_globals p)).
+  { apply lib_globals_In. right. exists (d, k). split; [exact Hin | left; reflexivity]. }
+  apply in_split in Hg as [g1 [g2 Hg]].
+  destruct (lcd_init_block p pre d post E) as [i1 [i2 Hi]]. fold k in Hi.
+  exists (map include_line (headers (erase_prog p)) ++ g1), g2, i1, i2. split.
+  - unfold lib_sketch. rewrite Hg, Hi. rewrite <- !app_assoc. reflexivity.
+  - intros h Hh. apply in_or_app. left. apply in_map.
+    apply (class_header_included p (d, k) Hin). exact Hh.
+Qed.
+
+Theorem servo_defined_before_setup p d :
+  In d (servo_decls p) ->
+  exists a b c,
+    lib_sketch p = a ++ [servo_obj_line (s_name d)] ++ b ++ [setup_start] ++ c /\
+    In (include_line HServo) a.
+Proof.
+  intro Hin.
+  assert (Hg : In (servo_obj_line (s_name d)) (lib_globals p)).
+  { apply lib_globals_In. left. exists d. split; [exact Hin | reflexivity]. }
+  apply in_split in Hg as [g1 [g2 Hg]].
+  exists (map include_line (headers (erase_prog p)) ++ g1), g2, (lib_init p). split.
+  - unfold lib_sketch. rewrite Hg. rewrite <- !app_assoc. reflexivity.
+  - apply in_or_app. left. apply in_map. exact (servo_header_included p d Hin).
+Qed.
